@@ -46,7 +46,8 @@ Tick == 1000
 S == {Decl[i].s : i \in DOMAIN Decl}
 D(s) == CHOOSE d \in RangeOf(Decl) : d.s = s
 KindOf(s) == D(s).kind
-NC(s) == IF KindOf(s) = "comp" THEN Len(D(s).children) ELSE IF KindOf(s) \in {"ping", "chan"} THEN 1 ELSE 0
+NC(s) == IF KindOf(s) = "comp" THEN Len(D(s).children) ELSE IF KindOf(s) \in {"ping", "chan", "exec"} THEN 1 ELSE 0
+IsExec(s) == KindOf(s) = "exec"
 FdOfM(s, c) == D(s).fds[c]
 AllFds == UNION {RangeOf(D(s).fds) : s \in S}
 ModeOf(s, c) == IF KindOf(s) = "comp" THEN D(s).children[c].mode ELSE "level"
@@ -73,6 +74,7 @@ VARIABLES
     closeBit,    \* per ping source: "no", "pending" (all handles gone, marker in the counter), "seen"
     handles,     \* per ping source: live Ping handles held by the driver;
                  \* per channel source: [q: queued messages, snd: live senders, closed: Closed delivered, n: messages sent]
+                 \* per executor: [futs: f -> [st, rdy, v, wk, polls], runq: runnables in the mpsc queue, notified, n]
     tdl,         \* per timer: [has, v] the deadline the Timer holds
     treg,        \* per timer: [on, key, ctr] its Registration
     heap,        \* set of [dl, key, ctr]
@@ -240,8 +242,17 @@ DropRS(rs, s) ==
 \* A source declared with `ondrop` re-enters the loop from its Drop: it calls LoopHandle::remove with its own
 \* (by then dead) token - a no-op, but it needs the source list, so it must not run while the list is borrowed.
 LastTokIdx(s) == CHOOSE i \in DOMAIN issued : issued[i].s = s /\ \A j \in DOMAIN issued : issued[j].s = s => j <= i
+\* Executor::drop wakes every active task and drains the queue: every future that is still alive is dropped
+LiveFuts(s) == IF IsExec(s) THEN {f \in DOMAIN handles[s].futs : handles[s].futs[f].st \in {"queued", "parked"}} ELSE {}
+FutDropEvs(s) == LET Srt == SetToSortSeq(LiveFuts(s), LAMBDA a, b : a < b)
+                 IN [i \in DOMAIN Srt |-> [e |-> "fdrop", s |-> s, f |-> Srt[i]]]
+DropFuts(h) == [h EXCEPT !.runq = <<>>,
+                         !.futs = [f \in DOMAIN @ |-> IF @[f].st \in {"queued", "parked"} THEN [@[f] EXCEPT !.st = "dropped"] ELSE @[f]]]
+HandlesAfterDrop(s, dies) == IF dies /\ IsExec(s) THEN [handles EXCEPT ![s] = DropFuts(@)] ELSE handles
+
 DropEvs(s, inRemove) ==
   <<[e |-> "drop_src", s |-> s]>>
+  \o FutDropEvs(s)
   \o (IF D(s).ondrop = 1 /\ \E i \in DOMAIN issued : issued[i].s = s
       THEN <<[e |-> "op", op |-> "remove", ts |-> s, t |-> LastTokIdx(s) - 1, ctx |-> 1000 + s],
              [e |-> "opret", op |-> "remove", ctx |-> 1000 + s,
@@ -258,7 +269,8 @@ Init ==
   /\ gtok = [s \in S |-> [c \in 1..NC(s) |-> NoTok]]
   /\ kern = [f \in AllFds |-> [on |-> FALSE, key |-> NoTok, r |-> FALSE, w |-> FALSE, mode |-> "level", armed |-> FALSE]]
   /\ rdy = [f \in AllFds |-> 0] /\ edgeq = {}
-  /\ pingCnt = [s \in S |-> 0] /\ closeBit = [s \in S |-> "no"] /\ handles = [s \in S |-> IF KindOf(s) = "chan" THEN [q |-> <<>>, snd |-> 1, closed |-> FALSE, n |-> 0] ELSE 1]
+  /\ pingCnt = [s \in S |-> 0] /\ closeBit = [s \in S |-> "no"] /\ handles = [s \in S |-> IF KindOf(s) = "chan" THEN [q |-> <<>>, snd |-> 1, closed |-> FALSE, n |-> 0]
+                                 ELSE IF KindOf(s) = "exec" THEN [futs |-> <<>>, runq |-> <<>>, notified |-> FALSE, n |-> 0] ELSE 1]
   /\ tdl = [s \in S |-> [has |-> D(s).hasdl = 1, v |-> D(s).dl]]
   /\ treg = [s \in S |-> [on |-> FALSE, key |-> NoTok, ctr |-> 0]]
   /\ heap = {} /\ expired = {} /\ nextCtr = 0 /\ now = 0
@@ -306,11 +318,11 @@ Insert(s) ==
 \* LoopHandle::remove(token)
 OpRemove(t) ==
   /\ CanOp("remove") /\ t \in DOMAIN issued /\ Budget
-  /\ UNCHANGED <<pending, idles, issued, rdy, pingCnt, closeBit, handles, tdl, now, pc, cbCount, nfaults, nextIdle>>
+  /\ UNCHANGED <<pending, idles, issued, rdy, pingCnt, closeBit, tdl, now, pc, cbCount, nfaults, nextIdle>>
   /\ LET tk == issued[t]
          s == SrcAt(tk.id, tk.ver)
      IN IF s = NoSrc
-        THEN /\ UNCHANGED <<slots, lifeSet, failNext, gtok, kern, heap, expired, treg, nextCtr, edgeq, obj, heldD, enabled>>
+        THEN /\ UNCHANGED <<slots, lifeSet, failNext, gtok, kern, heap, expired, treg, nextCtr, edgeq, obj, heldD, enabled, handles>>
              /\ Emit(WithSnap(<<OpEv("remove", [t |-> t - 1]), RetEv("remove", "ok", <<>>)>>))
         ELSE LET sl == [slots EXCEPT ![tk.id + 1].src = NoSrc]
                  \* unregister uses try_borrow_mut: skipped (Ok(false)) while s is being dispatched
@@ -322,7 +334,7 @@ OpRemove(t) ==
              IN /\ slots' = sl /\ lifeSet' = r.life /\ failNext' = r.fn /\ ApplyRS(rs2)
                 /\ obj' = [obj EXCEPT ![s] = IF dies THEN "gone" ELSE IF Borrowed(s) THEN @ ELSE "held"]
                 /\ enabled' = [enabled EXCEPT ![s] = IF Borrowed(s) THEN @ ELSE FALSE]
-                /\ heldD' = heldD
+                /\ heldD' = heldD /\ handles' = HandlesAfterDrop(s, dies)
                 /\ Emit(WithSnap(<<OpEv("remove", [t |-> t - 1])>> \o r.evs \o (IF dies THEN DropEvs(s, TRUE) ELSE <<>>)
                              \o <<RetEv("remove", "ok", <<>>)>>))
 
@@ -389,6 +401,43 @@ DropSender(s) ==
   /\ handles' = [handles EXCEPT ![s].snd = @ - 1]
   /\ pingCnt' = [pingCnt EXCEPT ![s] = IF @ < 2 THEN @ + 1 ELSE @]
   /\ Emit(WithSnap(<<OpEv("drop_sender", [s |-> s]), RetEv("drop_sender", "ok", <<>>)>>))
+
+\* Scheduler::schedule: spawn the task and schedule its runnable (Sender::send = push, then ping unless the
+\* executor is already notified); refused once the executor object is gone (the future is dropped at once)
+SendRunnable(h, f) == [h EXCEPT !.runq = Append(@, f), !.notified = TRUE]
+Schedule(s) ==
+  /\ CanOp("schedule") /\ IsExec(s) /\ handles[s].n < 3 /\ Budget
+  /\ UNCHANGED <<slots, lifeSet, pending, idles, issued, obj, heldD, enabled, gtok, kern, rdy, edgeq, closeBit,
+                 tdl, treg, heap, expired, nextCtr, now, pc, cbCount, nfaults, nextIdle, failNext>>
+  /\ LET h == handles[s]
+         f == s * 10 + h.n + 1
+     IN IF obj[s] = "gone"
+        THEN /\ handles' = [handles EXCEPT ![s].n = @ + 1] /\ pingCnt' = pingCnt
+             /\ Emit(WithSnap(<<OpEv("schedule", [s |-> s, f |-> f]), [e |-> "fdrop", s |-> s, f |-> f],
+                                RetEv("schedule", "destroyed", <<>>)>>))
+        ELSE /\ handles' = [handles EXCEPT ![s] = [SendRunnable(h, f) EXCEPT
+                                 !.n = @ + 1,
+                                 !.futs = (f :> [st |-> "queued", rdy |-> FALSE, v |-> 0, wk |-> FALSE, polls |-> 0]) @@ @]]
+             /\ pingCnt' = [pingCnt EXCEPT ![s] = IF h.notified THEN @ ELSE (IF @ < 2 THEN @ + 1 ELSE @)]
+             /\ Emit(WithSnap(<<OpEv("schedule", [s |-> s, f |-> f]), RetEv("schedule", "ok", <<>>)>>))
+
+\* the driver wakes the waker a future stored at its last Pending poll (wake), or makes it ready first (complete)
+WakeFut(name, s, f) ==
+  /\ CanOp(name) /\ IsExec(s) /\ f \in DOMAIN handles[s].futs /\ handles[s].futs[f].st # "done" /\ Budget
+  /\ name = "complete" => ~handles[s].futs[f].rdy
+  /\ UNCHANGED <<slots, lifeSet, pending, idles, issued, obj, heldD, enabled, gtok, kern, rdy, edgeq, closeBit,
+                 tdl, treg, heap, expired, nextCtr, now, pc, cbCount, nfaults, nextIdle, failNext>>
+  /\ LET h == handles[s]
+         fu == h.futs[f]
+         v == 1000 + f
+         h1 == IF name = "complete" THEN [h EXCEPT !.futs[f].rdy = TRUE, !.futs[f].v = v] ELSE h
+         woken == fu.wk /\ fu.st = "parked"        \* (a waker of a dropped task does nothing)
+         h2 == [h1 EXCEPT !.futs[f].wk = FALSE]
+         h3 == IF woken THEN [SendRunnable(h2, f) EXCEPT !.futs[f].st = "queued"] ELSE h2
+     IN /\ handles' = [handles EXCEPT ![s] = h3]
+        /\ pingCnt' = [pingCnt EXCEPT ![s] = IF woken /\ ~h.notified THEN (IF @ < 2 THEN @ + 1 ELSE @) ELSE @]
+        /\ Emit(WithSnap(<<OpEv(name, IF name = "complete" THEN [s |-> s, f |-> f, v |-> v] ELSE [s |-> s, f |-> f]),
+                           RetEv(name, IF fu.wk THEN "ok" ELSE "nowaker", <<>>)>>))
 
 Wr(s, c) ==
   /\ CanOp("wr") /\ KindOf(s) = "comp" /\ c \in 1..NC(s) /\ obj[s] # "gone" /\ Budget
@@ -585,6 +634,21 @@ ChanStep(s, tries) ==
   ELSE IF handles[s].snd = 0 THEN [what |-> "closed", m |-> 0]
   ELSE [what |-> "empty", m |-> 0]
 
+\* Executor::process_events: the run loop from its `tries`+1-th iteration on, up to the next completion callback
+RECURSIVE ExecRun(_, _, _, _)
+ExecRun(s, q, futs, tries) ==
+  IF tries >= ChanLimit THEN [what |-> "limit", q |-> q, futs |-> futs, tries |-> tries, evs |-> <<>>, v |-> 0]
+  ELSE IF q = <<>> THEN [what |-> "empty", q |-> q, futs |-> futs, tries |-> tries, evs |-> <<>>, v |-> 0]
+  ELSE LET f == Head(q)
+           pe == [e |-> "poll", s |-> s, f |-> f, k |-> futs[f].polls]
+       IN IF futs[f].rdy
+          THEN [what |-> "cb", q |-> Tail(q), tries |-> tries + 1, v |-> futs[f].v,
+                futs |-> [futs EXCEPT ![f].st = "done", ![f].wk = FALSE, ![f].polls = @ + 1],
+                evs |-> <<pe, [e |-> "pollret", s |-> s, f |-> f, r |-> "ready", v |-> futs[f].v],
+                          [e |-> "fdrop", s |-> s, f |-> f]>>]
+          ELSE LET r == ExecRun(s, Tail(q), [futs EXCEPT ![f].st = "parked", ![f].wk = TRUE, ![f].polls = @ + 1], tries + 1)
+               IN [r EXCEPT !.evs = <<pe, [e |-> "pollret", s |-> s, f |-> f, r |-> "pending", v |-> 0]>> \o @]
+
 \* process_events entered (the dispatcher is now mutably borrowed); the callback starts, or not
 ProcessBegin ==
   /\ pc = "ev" /\ dsp.pos <= Len(dsp.batch) /\ dsp.disp # NoSrc
@@ -616,6 +680,24 @@ ProcessBegin ==
                   /\ closeBit' = [closeBit EXCEPT ![s] = IF @ = "pending" THEN "seen" ELSE @]
                   /\ Emit(<<PeEv(s), [e |-> "peret", s |-> s, act |-> IF closeBit[s] = "pending" THEN "remove" ELSE "continue", us |-> Us]>>)
                   /\ UNCHANGED <<pingCnt, cbCount, expired, handles>>
+        ELSE IF KindOf(s) = "exec"
+        THEN \* the inner ping source drains the eventfd and calls the run loop (clearing `notified` first)
+             IF pingCnt[s] = 0
+             THEN /\ pc' = "post" /\ dsp' = [dsp EXCEPT !.ev = <<0, 0, 0>>, !.act = "continue"]
+                  /\ UNCHANGED <<pingCnt, closeBit, cbCount, expired, handles>>
+                  /\ Emit(<<PeEv(s), [e |-> "peret", s |-> s, act |-> "continue", us |-> Us]>>)
+             ELSE LET run == ExecRun(s, handles[s].runq, handles[s].futs, 0)
+                      h2 == [handles[s] EXCEPT !.runq = run.q, !.futs = run.futs, !.notified = FALSE]
+                  IN /\ handles' = [handles EXCEPT ![s] = h2] /\ UNCHANGED <<closeBit, expired>>
+                     /\ IF run.what = "cb"
+                        THEN /\ pc' = "incb" /\ dsp' = [dsp EXCEPT !.ops = MaxCbOps, !.ev = <<run.tries, 1, 0>>]
+                             /\ pingCnt' = [pingCnt EXCEPT ![s] = 0] /\ cbCount' = [cbCount EXCEPT !.cb[s] = @ + 1]
+                             /\ Emit(<<PeEv(s)>> \o run.evs
+                                     \o <<[e |-> "cb", s |-> s, sub |-> 0, p |-> run.v, k |-> cbCount.cb[s], us |-> Us]>>)
+                        ELSE /\ pc' = "post" /\ dsp' = [dsp EXCEPT !.ev = <<0, 0, 0>>, !.act = "continue"]
+                             \* stopped for the batch limit: the executor pings itself
+                             /\ pingCnt' = [pingCnt EXCEPT ![s] = IF run.what = "limit" THEN 1 ELSE 0] /\ cbCount' = cbCount
+                             /\ Emit(<<PeEv(s)>> \o run.evs \o <<[e |-> "peret", s |-> s, act |-> "continue", us |-> Us]>>)
         ELSE IF KindOf(s) = "chan"
         THEN \* drain the eventfd, then the channel's loop: the first try_recv
              LET r == ChanStep(s, 0) IN
@@ -678,8 +760,27 @@ ChanCallbackEnd ==
                     /\ UNCHANGED <<handles, pingCnt, cbCount>>
                     /\ Emit(<<cbret, [e |-> "peret", s |-> s, act |-> "continue", us |-> Us]>>)
 
+\* a completion callback of the executor returned: the run loop goes on
+ExecCallbackEnd ==
+  /\ pc = "incb" /\ KindOf(dsp.disp) = "exec"
+  /\ UNCHANGED <<slots, lifeSet, pending, idles, issued, obj, heldD, enabled, gtok, kern, rdy, edgeq, closeBit,
+                 tdl, treg, heap, expired, nextCtr, now, steps, nfaults, nextIdle, failNext>>
+  /\ LET s == dsp.disp
+         cbret == [e |-> "cbret", s |-> s, ret |-> "none", arg |-> 0, us |-> Us]
+         run == ExecRun(s, handles[s].runq, handles[s].futs, dsp.ev[1])
+         h2 == [handles[s] EXCEPT !.runq = run.q, !.futs = run.futs]
+     IN /\ handles' = [handles EXCEPT ![s] = h2]
+        /\ IF run.what = "cb"
+           THEN /\ pc' = pc /\ dsp' = [dsp EXCEPT !.ops = MaxCbOps, !.ev = <<run.tries, 1, 0>>]
+                /\ pingCnt' = pingCnt /\ cbCount' = [cbCount EXCEPT !.cb[s] = @ + 1]
+                /\ Emit(<<cbret>> \o run.evs \o <<[e |-> "cb", s |-> s, sub |-> 0, p |-> run.v, k |-> cbCount.cb[s], us |-> Us]>>)
+           ELSE /\ pc' = "post" /\ dsp' = [dsp EXCEPT !.ops = 0, !.act = "continue"]
+                /\ pingCnt' = [pingCnt EXCEPT ![s] = IF run.what = "limit" THEN (IF @ < 2 THEN @ + 1 ELSE @) ELSE @]
+                /\ cbCount' = cbCount
+                /\ Emit(<<cbret>> \o run.evs \o <<[e |-> "peret", s |-> s, act |-> "continue", us |-> Us]>>)
+
 CallbackEnd(ret) ==
-  /\ pc = "incb" /\ ret \in CbRetSet(dsp.disp) /\ KindOf(dsp.disp) # "chan"
+  /\ pc = "incb" /\ ret \in CbRetSet(dsp.disp) /\ KindOf(dsp.disp) \notin {"chan", "exec"}
   /\ LET s == dsp.disp
          act == CASE KindOf(s) = "ping" -> IF dsp.ev[1] = 1 THEN "remove" ELSE "continue"
                   [] KindOf(s) = "timer" -> IF ret = "drop" THEN "remove" ELSE "continue"
@@ -705,7 +806,7 @@ CallbackEnd(ret) ==
 \* take-and-reset the pending cell, merge, apply the post action, removal check (loop_logic.rs)
 PostAction ==
   /\ pc = "post"
-  /\ UNCHANGED <<idles, issued, heldD, rdy, pingCnt, closeBit, handles, tdl, now, cbCount, steps, nfaults, nextIdle>>
+  /\ UNCHANGED <<idles, issued, heldD, rdy, pingCnt, closeBit, tdl, now, cbCount, steps, nfaults, nextIdle>>
   /\ LET s == dsp.disp
          k == CurEv.key
          id == k[1]  ver == k[2]
@@ -731,9 +832,9 @@ PostAction ==
      IN IF ret0 = "err" /\ "stop_batch_on_error" \in Variants
         THEN \* the code before the fix: `?` returns at once, the rest of the batch is dropped
              /\ pending' = pend2 /\ pc' = "ret" /\ dsp' = [dsp EXCEPT !.disp = NoSrc, !.err = TRUE]
-             /\ UNCHANGED <<slots, lifeSet, failNext, gtok, kern, heap, expired, treg, nextCtr, edgeq, obj, enabled, mon, hist>>
+             /\ UNCHANGED <<slots, lifeSet, failNext, gtok, kern, heap, expired, treg, nextCtr, edgeq, obj, enabled, handles, mon, hist>>
         ELSE
-        /\ pending' = pend2
+        /\ pending' = pend2 /\ handles' = HandlesAfterDrop(s, dies)
         /\ slots' = sl1 /\ lifeSet' = r2.life /\ failNext' = r2.fn /\ ApplyRS(rs3)
         /\ obj' = [obj EXCEPT ![s] = obj2]
         /\ enabled' = [enabled EXCEPT ![s] = IF gone \/ act = "disable" THEN FALSE ELSE @]
@@ -783,7 +884,8 @@ ApiOp ==
   \/ \E s \in S : Insert(s)
   \/ \E t \in DOMAIN issued : OpRemove(t)
   \/ \E t \in DOMAIN issued, n \in {"disable", "enable", "update"} : TokenOpGuard(n, t) /\ TokenOp(n, t)
-  \/ \E s \in S : Ping(s) \/ DropPing(s) \/ Send(s) \/ DropSender(s)
+  \/ \E s \in S : Ping(s) \/ DropPing(s) \/ Send(s) \/ DropSender(s) \/ Schedule(s)
+  \/ \E s \in S, f \in 11..39, n \in {"wake", "complete"} : WakeFut(n, s, f)
   \/ \E s \in S, c \in 1..2 : Wr(s, c) \/ Rd(s, c)
   \/ \E s \in S, d \in {now, now + 1, now + 5} : SetDeadline(s, d)
   \/ InsertIdle
@@ -794,7 +896,7 @@ Next ==
   \/ Advance
   \/ \E s \in S, call \in {"register", "unregister", "reregister"} : Fault(s, call)
   \/ DispatchBegin \/ BeforeSleep \/ BsDone \/ Poll \/ BeforeHandle \/ BheDone
-  \/ Lookup \/ ProcessBegin \/ ChanCallbackEnd \/ \E r \in Rets \cup TimerRets \cup {"none"} : CallbackEnd(r)
+  \/ Lookup \/ ProcessBegin \/ ChanCallbackEnd \/ ExecCallbackEnd \/ \E r \in Rets \cup TimerRets \cup {"none"} : CallbackEnd(r)
   \/ PostAction \/ EventsDone \/ IdleBegin \/ IdleEnd \/ DispatchEnd
 
 Spec == Init /\ [][Next]_vars
@@ -807,7 +909,9 @@ NoViolation(p) == mon.misuse \/ ViolOf(p) = {}
 Inv_C01 == NoViolation("C01")
 Inv_C02 == NoViolation("C02")
 Inv_C03 == NoViolation("C03")
+Inv_C04 == NoViolation("C04")
 Inv_C05 == NoViolation("C05")
+Inv_C10 == NoViolation("C10")
 Inv_C06 == NoViolation("C06")
 Inv_C07 == NoViolation("C07")
 Inv_C08 == NoViolation("C08")
